@@ -40,6 +40,8 @@ def translate(ctx):
     ctx.extra.setdefault('coverage', {})['translator_available'] = ok
     if not ok:
         ctx.notes.append(f'translator failed closed ({info.get("why")}); C14 bookkeeping rests on correspondence alone in this run')
+        ctx.obligations += 1
+        ctx.problem('proof', 'gen_kload', None, f'enums.py / acq_filters.py / KData.py are outside the translated subset ({info.get("why")}): the regenerated obligations cannot be stated')
         return
     ctx.obligations += kload.N_OBLIGATIONS
     rc, so, se = vlib.coqc_file(out)
